@@ -186,3 +186,6 @@ func DumpBun(c *core.Ctx, args []string) {
 		fmt.Printf("%s EXEC %s handle=%s sql=%q\n", p.Rel(e.Call.Pos()), e.Method, astx.ExprString(e.Handle), e.SQL)
 	}
 }
+
+// newEval builds a symbolic string evaluator for a declaration.
+func newEval(d *astx.DeclInfo) *bunq.Evaluator { return bunq.NewEvaluator(d.Pkg.TypesInfo, d.Decl) }
